@@ -142,23 +142,75 @@ func c13Verdict(p *chk.Prog, r *chk.Report) {
 			adv := rangeVal(f, inner)
 			none := isObjNamed(f, "internal/layer2.dropReasonNone")
 			n := 0
+			outerHead, _, _ := g.RangeBlocks(outer)
+			exhaust := func(b *cfgBlock, k int) bool { return b == outerHead && k == 1 }
 			for _, rt := range g.Returns() {
 				rr := retResults(rt)
 				if len(rr) != 1 {
 					continue
 				}
-				if none(rr[0]) {
-					n++
-					ok := g.Dominated(rt, g.GPat(true, "I.ip.Equal(IP)", chk.H("I", adv), chk.H("IP", ip))) && g.Dominated(rt, g.GPat(true, "I.matchInterface(IF)", chk.H("I", adv), chk.H("IF", intf)))
-					x.Check("shouldAnnounce:none-needs-matching-advertisement", rt.Pos(), ok, "", "a request can be accepted without an advertisement holding that address on that interface")
-				} else {
+				// what this return can yield: the expression itself, or (single exit) the values assigned to the result
+				// variable, each judged where it was assigned
+				for _, form := range resultForms(g, f, rt, 0) {
+					if form.E != nil && none(form.E) {
+						n++
+						at := form.At
+						ok := g.Dominated(at, g.GPat(true, "I.ip.Equal(IP)", chk.H("I", adv), chk.H("IP", ip))) && g.Dominated(at, c13CoversInterface(g, adv, intf))
+						x.Check("shouldAnnounce:none-needs-matching-advertisement", at.Pos(), ok, "", "a request can be accepted without an advertisement holding that address on that interface")
+					}
+				}
+				// a negative verdict needs the full scan: on the paths that reach this return without exhausting the
+				// outer loop the value returned is the accepting one
+				okNeg := true
+				if id, isId := ast.Unparen(rr[0]).(*ast.Ident); isId && !none(rr[0]) && f.LocalDef(id) == nil {
+					if _, isVar := f.ObjOf(id).(*types.Var); isVar {
+						defs, entry := g.ReachingDefsAvoiding(id, rt, exhaust)
+						if entry {
+							okNeg = false
+						}
+						onlyNone := func(defs []ast.Node) bool {
+							for _, d := range defs {
+								as, isAs := d.(*ast.AssignStmt)
+								if !isAs || len(as.Lhs) != 1 || len(as.Rhs) != 1 || !none(as.Rhs[0]) {
+									return false
+								}
+							}
+							return true
+						}
+						okNeg = okNeg && onlyNone(defs)
+						// the advertisements of one service are left early (break, continue of the outer loop) only with
+						// the accepting value
+						innerHead, _, _ := g.RangeBlocks(inner)
+						for _, b := range g.Blocks {
+							if chk.BlockOutside(b, inner.Body) {
+								continue
+							}
+							for _, sb := range b.Succs {
+								if sb == innerHead || !chk.BlockOutside(sb, inner.Body) {
+									continue
+								}
+								d2, entry2 := g.ReachingDefsAvoiding(id, chk.Site{G: g, B: b, I: len(b.Nodes)}, nil)
+								if entry2 || !onlyNone(d2) {
+									okNeg = false
+								}
+							}
+						}
+						x.Check("shouldAnnounce:negative-only-after-full-scan#"+types.ExprString(rr[0]), rt.Pos(), okNeg, "", "a negative verdict is possible before every advertisement of every service was examined (another service may hold the address on this interface)")
+						continue
+					}
+				}
+				if !none(rr[0]) {
 					x.Check("shouldAnnounce:negative-only-after-full-scan#"+types.ExprString(rr[0]), rt.Pos(), g.AfterLoop(rt, outer) && !loopHasBreak(g, outer) && !loopHasBreak(g, inner), "", "a negative verdict is possible before every advertisement of every service was examined (another service may hold the address on this interface)")
 				}
 			}
-			x.Check("shouldAnnounce:has-none", f.Pos(), n == 1, "", "expected one accepting return")
+			x.Check("shouldAnnounce:has-none", f.Pos(), n >= 1, "", "expected an accepting return")
 		}
 	}
-	m := need(x, p, "internal/layer2", "IPAdvertisement", "matchInterface")
+	m := p.LookupFunc("internal/layer2", "IPAdvertisement", "matchInterface")
+	if m == nil {
+		// folded into its users: "all interfaces, or listed" is decided where it is spelt (VERDICT / GRATUITOUS above)
+		x.OK("matchInterface:all-or-listed", 0, "decided in place at the users of the advertisement")
+	}
 	if m != nil {
 		g := m.Graph()
 		ok := true
@@ -209,7 +261,15 @@ func c13Refcount(p *chk.Prog, r *chk.Report) {
 		okOv := len(ov) == 1
 		if okOv {
 			stored := elementOf(f, func(e ast.Expr) bool { return f.MatchWith("RECV.ips[N]", e, chk.H("N", name)) != nil })
-			okOv = g.Dominated(ov[0], chk.GAnyOf(g.GPat(true, "A.ip.Equal(EL.ip)", chk.H("A", adv), chk.H("EL", stored)), g.GPat(true, "EL.ip.Equal(A.ip)", chk.H("A", adv), chk.H("EL", stored))))
+			sameIP := func(el func(ast.Expr) bool) chk.Guard {
+				return chk.GAnyOf(g.GPat(true, "A.ip.Equal(EL.ip)", chk.H("A", adv), chk.H("EL", el)), g.GPat(true, "EL.ip.Equal(A.ip)", chk.H("A", adv), chk.H("EL", el)))
+			}
+			okOv = g.Dominated(ov[0], sameIP(stored))
+			if !okOv {
+				// the element found by a search for the same address (slices.IndexFunc + `idx >= 0`)
+				ixe := ov[0].Node.(*ast.AssignStmt).Lhs[0].(*ast.IndexExpr).Index
+				okOv = foundIndex(f, g, ixe, ov[0], func(e ast.Expr) bool { return f.MatchWith("RECV.ips[N]", e, chk.H("N", name)) != nil }, sameIP)
+			}
 			// from the override, the function returns without append / increment
 			w := (&chk.Walk{G: g, From: ov[0], Hit: func(n ast.Node) bool { return app(n) || inc(n) }}).Run()
 			okOv = okOv && !w.Found
@@ -334,6 +394,15 @@ func c13Gratuitous(p *chk.Prog, r *chk.Report) {
 			famOK = g.Dominated(s, g.GPat(false, "IP.To4() != nil", chk.H("IP", func(e ast.Expr) bool { return f.SameExpr(e, ip) })))
 		}
 		x.Check("gratuitous("+kind+"):still-announced", s.Pos(), ipOK && g.Dominated(s, g.GPat(false, "RECV.ipRefcnt[IP.String()] <= 0", chk.H("IP", func(e ast.Expr) bool { return f.SameExpr(e, ip) }))), "", "unsolicited announcements can be sent for an address that is no longer announced")
-		x.Check("gratuitous("+kind+"):covered-interface-and-family", s.Pos(), famOK && g.Dominated(s, g.GPat(true, "A.matchInterface(CL.intf)", chk.H("A", adv), chk.H("CL", sameCl))), "", "unsolicited announcements can be sent on an interface the advertisement does not cover, or with the wrong protocol for the address family")
+		x.Check("gratuitous("+kind+"):covered-interface-and-family", s.Pos(), famOK && g.Dominated(s, c13CoversInterface(g, adv, func(e ast.Expr) bool { return f.MatchWith("CL.intf", e, chk.H("CL", sameCl)) != nil })), "", "unsolicited announcements can be sent on an interface the advertisement does not cover, or with the wrong protocol for the address family")
 	}
+}
+
+// c13CoversInterface: the advertisement covers the interface - i.matchInterface(intf), or what that helper is: the
+// all-interfaces flag or membership in the advertisement's interface set.
+func c13CoversInterface(g *chk.Graph, adv, intf func(ast.Expr) bool) chk.Guard {
+	return chk.GOr(
+		g.GPat(true, "I.matchInterface(IF)", chk.H("I", adv), chk.H("IF", intf)),
+		g.GPat(true, "I.allInterfaces", chk.H("I", adv)),
+		g.GPat(true, "I.interfaces.Has(IF)", chk.H("I", adv), chk.H("IF", intf)))
 }
